@@ -54,12 +54,15 @@ theorem GateSemOK.toShape [SimAmp α] {n : Nat} {valid : GateTerm P → List Nat
     (h : GateSemOK α n valid) : GateShapeOK α n valid :=
   fun g bits hv m M M' h1 h2 h3 => ⟨(h.mat g bits hv m M M' h1 h2 h3).1, (h.mat g bits hv m M M' h1 h2 h3).2.1⟩
 
+/-- the gate instance of an operation (if any) satisfies the side conditions -/
+def OpValid (valid : GateTerm P → List Nat → Prop) : COp P → Prop
+  | .gate g bits => valid g bits
+  | .cond _ _ g bits => valid g bits
+  | _ => True
+
 /-- the gate instances of a circuit satisfy the side conditions -/
 def OpsValid (valid : GateTerm P → List Nat → Prop) (ops : List (COp P)) : Prop :=
-  ∀ op ∈ ops, match op with
-    | .gate g bits => valid g bits
-    | .cond _ _ g bits => valid g bits
-    | _ => True
+  ∀ op ∈ ops, OpValid valid op
 
 end
 end Q1t.Sim
